@@ -862,9 +862,45 @@ func hostileClass(nm string) string {
 // that contains '/' is not the name of a directory entry either; when the
 // joined path nevertheless exists on the host the walk is ambiguous and is not
 // judged here (what such elements may reach is C18's subject).
+//
+// The elements "." and ".." name the directory itself and its parent. They are
+// judged only where there is one answer to what that is: the object the host
+// resolves cur/. or cur/.. to (os.Lstat of that very string) must be the
+// object at the lexically shortened path (cur, or cur without its last
+// element). Where the two differ or only one exists - behind a symbolic link
+// (the parent of the link or of its target?), behind a file - the walk is
+// ambiguous and not judged. ".." at the exported root is the root (C18's
+// clause "'..' at the root stays at the root"; only the local root is used as
+// the reference, nothing outside is looked at). The path returned for the
+// object reached is the lexically clean one, so that its last element is the
+// NAME of the object (filepath.Base of the cleaned local path).
 func (x *executor) resolve(P string, names []string) (infos []os.FileInfo, cur string, ambiguous bool) {
 	cur = P
 	for _, nm := range names {
+		if nm == "." || nm == ".." {
+			lex := cur
+			if nm == ".." && cur != x.root {
+				lex = cur[:strings.LastIndexByte(cur, '/')]
+			}
+			lfi, lerr := os.Lstat(lex)
+			if nm == ".." && cur == x.root {
+				if lerr != nil {
+					break
+				}
+				infos = append(infos, lfi)
+				continue
+			}
+			pfi, perr := os.Lstat(cur + "/" + nm)
+			if perr != nil && lerr != nil {
+				break
+			}
+			if perr != nil || lerr != nil || !os.SameFile(pfi, lfi) {
+				return infos, cur, true
+			}
+			infos = append(infos, lfi)
+			cur = lex
+			continue
+		}
 		fi, err := os.Lstat(cur + "/" + nm)
 		if err != nil {
 			break
@@ -878,6 +914,38 @@ func (x *executor) resolve(P string, names []string) (infos []os.FileInfo, cur s
 	return infos, cur, false
 }
 
+// isDot says whether a walk element is "." or "..".
+func isDot(nm string) bool { return nm == "." || nm == ".." }
+
+// dotShape classifies where the "." / ".." elements of a walk are.
+func dotShape(names []string) string {
+	n, last, trail := 0, false, 0
+	for _, nm := range names {
+		if isDot(nm) {
+			n++
+			trail++
+			last = true
+		} else {
+			trail = 0
+			last = false
+		}
+	}
+	switch {
+	case n == 0:
+		return ""
+	case !last:
+		return "inner"
+	case trail == len(names):
+		if trail == 1 {
+			return "only-one"
+		}
+		return "only-several"
+	case trail == 1:
+		return "last-one"
+	}
+	return "last-several"
+}
+
 // walkNames converts and checks the names of a Twalk of a case.
 func walkNames(bnames [][]byte) ([]string, error) {
 	if len(bnames) > 16 {
@@ -886,7 +954,7 @@ func walkNames(bnames [][]byte) ([]string, error) {
 	names := make([]string, len(bnames))
 	for j, nm := range bnames {
 		s := string(nm)
-		if s == "" || s == "." || s == ".." || len(s) > 5000 {
+		if s == "" || len(s) > 5000 {
 			return nil, infraf("case: walk name outside the C16 alphabet: %q", s)
 		}
 		names[j] = s
@@ -923,7 +991,7 @@ func (x *executor) doWalk(pfx string, op *Op) error {
 	}
 	infos, cur, ambiguous := x.resolve(P, names)
 	if ambiguous {
-		hx.Label("op skipped (element with '/' whose joined path exists: not judged)")
+		hx.Label("op skipped (element with '/' whose joined path exists, or '.' / '..' behind a symlink or a file: not judged)")
 		return nil
 	}
 	k := len(infos)
@@ -949,6 +1017,21 @@ func (x *executor) doWalk(pfx string, op *Op) error {
 	hx.Label(fmt.Sprintf("walk from=%s inplace=%v n=%s %s", from, inplace, nclass(n), outcome))
 	if n >= 2 && k >= 1 && k < n {
 		hx.NonTrivial("walk", x.treeH, strings.TrimPrefix(P, x.root), inplace, strings.Join(names, "/"))
+	}
+	if ds := dotShape(names); ds != "" {
+		depth := strings.Count(strings.TrimPrefix(P, x.root), "/")
+		hx.Label(fmt.Sprintf("walk with '.'/'..' elements: %s inplace=%v %s", ds, inplace, outcome))
+		if k == n && isDot(names[n-1]) {
+			at := "below the root"
+			if cur == x.root {
+				at = "the root"
+			}
+			hx.Label(fmt.Sprintf("walk ENDING on %q: start depth=%s, reaches %s", names[n-1], depthClass(depth), at))
+			if cur != x.root {
+				// the stat NAME of the fid must be the directory's own name
+				hx.NonTrivial("walk-dots", x.treeH, strings.TrimPrefix(P, x.root), inplace, strings.Join(names, "/"), x.dotu)
+			}
+		}
 	}
 	for j, nm := range names {
 		hc := hostileClass(nm)
@@ -1588,6 +1671,11 @@ func (x *executor) visitAll() error {
 				return err
 			}
 		}
+		if x.c.Tree[i].Kind == "d" {
+			if err := x.visitDots(i, fid, tmp); err != nil {
+				return err
+			}
+		}
 		hx.Label(fmt.Sprintf("visit depth=%s", depthClass(depth[i])))
 
 		if !full[i] || i == 0 {
@@ -1621,6 +1709,16 @@ func (x *executor) visitAll() error {
 		if err := check(whatFull, i, tmp); err != nil {
 			return err
 		}
+		if x.c.Tree[i].Kind == "d" {
+			// and from there, in place, back up: the fid that was walked down the
+			// whole path must then be the parent directory, under its own name
+			x.model[tmp] = p
+			err := x.doWalk(fmt.Sprintf("visit node %d by its whole path (%d elements), then in place", i, len(elems)), &Op{Kind: "walk", Fid: tmp, Newfid: tmp, Names: [][]byte{[]byte("..")}})
+			delete(x.model, tmp)
+			if err != nil {
+				return err
+			}
+		}
 		if err := clunk(whatFull, tmp); err != nil {
 			return err
 		}
@@ -1635,6 +1733,54 @@ func (x *executor) visitAll() error {
 		}
 	}
 	return nil
+}
+
+// dotVariants are the walks made of "." and ".." only that visitDots sends
+// (besides the plain ".."), one per directory, chosen by the node's number.
+var dotVariants = [][]string{{"."}, {"..", ".."}, {"..", "."}, {".", ".."}, {".", "."}, {"..", "..", ".."}, {".", "..", "."}}
+
+// visitDots is the part of the visit that reaches directories by "." and "..":
+// from the fid on the real directory node i (a path of real directories, so
+// that there is no doubt what its parent is) Twalk [".."] - to a new fid, or
+// for every other node in place on a clone - and one of dotVariants to a new
+// fid. Each is an ordinary judged walk: the qids are those of the directories
+// passed, and the fid then stats as the directory reached, under that
+// directory's own name.
+func (x *executor) visitDots(i int, fid, tmp uint32) error {
+	x.model[fid] = x.paths[i]
+	defer delete(x.model, fid)
+	pfx := fmt.Sprintf("visit node %d by dot elements", i)
+	release := func() error {
+		if _, live := x.model[tmp]; live {
+			return x.clunkFid(str(pfx), tmp)
+		}
+		return nil
+	}
+	up := [][]byte{[]byte("..")}
+	if i%2 == 0 {
+		if err := x.doWalk(pfx, &Op{Kind: "walk", Fid: fid, Newfid: tmp}); err != nil {
+			return err
+		}
+		if _, live := x.model[tmp]; !live {
+			return fmt.Errorf("%s: cloning the fid on %s did not give a fid", pfx, shortPath(x.root, x.paths[i]))
+		}
+		if err := x.doWalk(pfx, &Op{Kind: "walk", Fid: tmp, Newfid: tmp, Names: up}); err != nil {
+			return err
+		}
+	} else if err := x.doWalk(pfx, &Op{Kind: "walk", Fid: fid, Newfid: tmp, Names: up}); err != nil {
+		return err
+	}
+	if err := release(); err != nil {
+		return err
+	}
+	var names [][]byte
+	for _, e := range dotVariants[(i/2)%len(dotVariants)] {
+		names = append(names, []byte(e))
+	}
+	if err := x.doWalk(pfx, &Op{Kind: "walk", Fid: fid, Newfid: tmp, Names: names}); err != nil {
+		return err
+	}
+	return release()
 }
 
 func depthClass(n int) string {
@@ -1669,37 +1815,62 @@ func cliPath(op *CliOp) string {
 }
 
 func (x *executor) doCli(clnt *go9p.Clnt, tag string, op *CliOp) error {
-	for _, e := range op.Elems {
+	elems := make([]string, len(op.Elems))
+	ndots := 0
+	for j, e := range op.Elems {
 		s := string(e)
-		if s == "" || s == "." || s == ".." || strings.ContainsAny(s, "/\x00") {
+		if s == "" || strings.ContainsAny(s, "/\x00") {
 			return infraf("case: client path element outside the C16 alphabet: %q", s)
 		}
+		if isDot(s) {
+			ndots++
+		}
+		elems[j] = s
 	}
-	local := x.root
-	for _, e := range op.Elems {
-		local += "/" + string(e)
+	// the local object: element by element like a walk ("." and ".." elements
+	// are judged only where the host and the lexical reading agree, see resolve)
+	infos, local, ambiguous := x.resolve(x.root, elems)
+	if ambiguous {
+		hx.Label("client op skipped ('.' / '..' behind a symlink or a file: not judged)")
+		return nil
 	}
-	fi, lerr := os.Lstat(local)
-	exists := lerr == nil
+	exists := len(infos) == len(elems)
+	var fi os.FileInfo
+	if exists {
+		var lerr error
+		if fi, lerr = os.Lstat(local); lerr != nil {
+			return infraf("lstat %q: %v", local, lerr)
+		}
+	} else if len(infos) < len(elems) {
+		// (for the messages) the path as far as it goes plus the rest
+		for _, e := range elems[len(infos):] {
+			local += "/" + e
+		}
+	}
 	dotu := x.c.SrvDotu
 	// an element at a Twalk boundary (16th, 32nd) that is a symlink: the next
 	// Twalk starts from a fid designating the symlink
 	boundarySym := false
-	for b := 16; b < len(op.Elems); b += 16 {
-		bp := x.root
-		for _, e := range op.Elems[:b] {
-			bp += "/" + string(e)
-		}
-		if bfi, err := os.Lstat(bp); err == nil && bfi.Mode()&os.ModeSymlink != 0 {
+	for b := 16; b < len(elems) && b <= len(infos); b += 16 {
+		if infos[b-1].Mode()&os.ModeSymlink != 0 {
 			boundarySym = true
 		}
 	}
 	path := cliPath(op)
 	what := lazy(func() string {
+		if ndots > 0 {
+			return fmt.Sprintf("%s: %s(%d elements %s, style %d; the local object is %s) .u=%v", tag, op.Kind, len(op.Elems), qnames(op.Elems), op.Style, shortPath(x.root, local), dotu)
+		}
 		return fmt.Sprintf("%s: %s(%d elements, style %d, %s) .u=%v", tag, op.Kind, len(op.Elems), op.Style, shortPath(x.root, local), dotu)
 	})
 	hx.Eval()
 	hx.Label(fmt.Sprintf("client %s depth=%s exists=%v", op.Kind, depthClass(len(op.Elems)), exists))
+	if ndots > 0 {
+		hx.Label(fmt.Sprintf("client %s path with '.'/'..' elements: %s exists=%v", op.Kind, dotShape(elems), exists))
+		if exists && isDot(elems[len(elems)-1]) && local != x.root && op.Kind != "fopen" {
+			hx.NonTrivial("cli-dots", x.treeH, op.Kind, path, dotu)
+		}
+	}
 	if len(op.Elems) > 16 {
 		hx.NonTrivial("cli", x.treeH, op.Kind, path, dotu)
 	}
